@@ -3,14 +3,17 @@
 package storage
 
 import (
+	"crypto/sha512"
 	"encoding/hex"
 	"fmt"
 	"math/big"
 	"runtime"
 	"sort"
 	"strings"
+	"sync"
 	"time"
 
+	"filippo.io/edwards25519"
 	"github.com/MixinNetwork/mixin/common"
 	"github.com/MixinNetwork/mixin/config"
 	"github.com/MixinNetwork/mixin/crypto"
@@ -328,6 +331,8 @@ const (
 	txgInMint           // universal mint of InAmt, next batch
 	txgInGenesis        // genesis input (network id bytes)
 	txgInDepMint        // one input carrying deposit AND mint data
+	txgInFar            // the xin7 deposit transaction, output index 1024 (the largest encodable index)
+	txgInTooFar         // ... index 1025 (the encoder refuses)
 )
 
 type txgIn struct {
@@ -349,6 +354,10 @@ func (i txgIn) String() string {
 		return "genesis"
 	case txgInDepMint:
 		return "deposit+mint"
+	case txgInFar:
+		return "xin7#1024"
+	case txgInTooFar:
+		return "xin7#1025"
 	}
 	return "?"
 }
@@ -461,9 +470,7 @@ func (s *txgShape) Key() string {
 
 var txgZeroSig crypto.Signature
 
-// txgKeyPool caches one-time output keys: deriving them costs two scalar
-// multiplications. Keys are a function of (salt, position, form); the salt
-// makes them unique per case where that matters (see txgBuild).
+// txgOutKeys derives real one-time keys for an account (two scalar multiplications).
 func txgOutKeys(seedLabel string, index int, form int, to *common.Address) (crypto.Key, *crypto.Key) {
 	r := crypto.NewKeyFromSeed(fixc.Seed64(seedLabel))
 	mask := r.Public()
@@ -473,11 +480,91 @@ func txgOutKeys(seedLabel string, index int, form int, to *common.Address) (cryp
 	return mask, crypto.DeriveGhostPublicKey(&r, &to.PublicViewKey, &to.PublicSpendKey, uint64(index))
 }
 
-// txgBuild builds the transaction of a shape against a ledger. salt makes the
-// one-time output keys of this case unique: Validate reserves the output keys
-// of a transaction that passes the amount check (LockGhostKeys), so cases
-// sharing keys would not be independent.
-func txgBuild(e *txgEnv, s *txgShape, salt string) *common.VersionedTransaction {
+// txgKeyGen hands out fresh one-time output keys cheaply: the points
+// B+G, B+2G, ... for a base point B derived from a label (one point addition
+// per key instead of two scalar multiplications). Every key is a valid
+// prime-order point and is used by exactly one case.
+type txgKeyGen struct {
+	cur  *edwards25519.Point
+	g    *edwards25519.Point
+	mask crypto.Key
+	n    int
+}
+
+func txgNewKeyGen(label string) *txgKeyGen {
+	k := fixc.Key("txg-keygen:" + label)
+	sc, err := edwards25519.NewScalar().SetCanonicalBytes(k[:])
+	if err != nil {
+		panic(err)
+	}
+	return &txgKeyGen{
+		cur:  new(edwards25519.Point).ScalarBaseMult(sc),
+		g:    edwards25519.NewGeneratorPoint(),
+		mask: fixc.Key("txg-keygen-mask").Public(),
+	}
+}
+
+func (g *txgKeyGen) next() *crypto.Key {
+	g.cur.Add(g.cur, g.g)
+	g.n++
+	var k crypto.Key
+	copy(k[:], g.cur.Bytes())
+	return &k
+}
+
+// txgSigner produces valid signatures of one private key with a fixed nonce:
+// R = zG and the public key are computed once, a signature then costs one hash
+// and one scalar multiply-add instead of two base-point multiplications. The
+// signatures verify under the real Key.Verify / BatchVerify (nonce reuse is of
+// no concern for keys that only exist in this harness).
+type txgSigner struct {
+	y, z *edwards25519.Scalar
+	pub  crypto.Key
+	r    [32]byte
+}
+
+var txgSigners sync.Map // crypto.Key (private) -> *txgSigner
+
+func txgSignerOf(priv *crypto.Key) *txgSigner {
+	if v, ok := txgSigners.Load(*priv); ok {
+		return v.(*txgSigner)
+	}
+	y, err := edwards25519.NewScalar().SetCanonicalBytes(priv[:])
+	if err != nil {
+		panic(err)
+	}
+	zk := fixc.Key("txg-nonce:" + priv.String())
+	z, _ := edwards25519.NewScalar().SetCanonicalBytes(zk[:])
+	sg := &txgSigner{y: y, z: z, pub: priv.Public()}
+	copy(sg.r[:], new(edwards25519.Point).ScalarBaseMult(z).Bytes())
+	v, _ := txgSigners.LoadOrStore(*priv, sg)
+	return v.(*txgSigner)
+}
+
+func (sg *txgSigner) sign(msg crypto.Hash) *crypto.Signature {
+	h := sha512.New()
+	h.Write(sg.r[:])
+	h.Write(sg.pub[:])
+	h.Write(msg[:])
+	var digest [64]byte
+	h.Sum(digest[:0])
+	x, err := edwards25519.NewScalar().SetUniformBytes(digest[:])
+	if err != nil {
+		panic(err)
+	}
+	s := edwards25519.NewScalar().MultiplyAdd(x, sg.y, sg.z)
+	var sig crypto.Signature
+	copy(sig[:], sg.r[:])
+	copy(sig[32:], s.Bytes())
+	return &sig
+}
+
+// txgBuild builds the transaction of a shape against a ledger. Validate
+// reserves the output keys of a transaction that passes the amount check
+// (LockGhostKeys), so cases sharing keys would not be independent: with kg the
+// one-time keys come from the generator (unique per case), without it they
+// are derived for the wallet account from salt (unique when salt is).
+func txgBuild(e *txgEnv, s *txgShape, salt string, kg *txgKeyGen) *common.VersionedTransaction {
 	net := e.W.L.Net
 	tx := common.NewTransactionV5(txgAssets[s.Asset])
 	for i, in := range s.Ins {
@@ -510,6 +597,10 @@ func txgBuild(e *txgEnv, s *txgShape, salt string) *common.VersionedTransaction 
 			tx.Inputs = append(tx.Inputs, &common.Input{Mint: &common.MintData{Group: "UNIVERSAL", Batch: e.W.MintBatch + 1, Amount: s.InAmt.V}})
 		case txgInGenesis:
 			tx.Inputs = append(tx.Inputs, &common.Input{Genesis: net.NetworkId[:]})
+		case txgInFar:
+			tx.Inputs = append(tx.Inputs, &common.Input{Hash: e.Ref["xin7"].Hash, Index: 1024})
+		case txgInTooFar:
+			tx.Inputs = append(tx.Inputs, &common.Input{Hash: e.Ref["xin7"].Hash, Index: 1025})
 		}
 	}
 	to := e.W.Acct
@@ -530,14 +621,18 @@ func txgBuild(e *txgEnv, s *txgShape, salt string) *common.VersionedTransaction 
 		}
 		switch form {
 		case txgFormKeyed, txgFormStorage:
-			mask, key := txgOutKeys(fmt.Sprintf("txg-out:%s:%d", salt, i), i, form, &to)
-			out.Mask, out.Keys = mask, []*crypto.Key{key}
+			if kg != nil {
+				out.Mask, out.Keys = kg.mask, []*crypto.Key{kg.next()}
+			} else {
+				mask, key := txgOutKeys(fmt.Sprintf("txg-out:%s:%d", salt, i), i, form, &to)
+				out.Mask, out.Keys = mask, []*crypto.Key{key}
+			}
 			out.Script = common.NewThresholdScript(1)
 			if form == txgFormStorage {
 				out.Script = common.NewThresholdScript(64)
 			}
 		case txgFormWithdrawal:
-			out.Withdrawal = &common.WithdrawalData{Address: "bc1-txg-" + salt, Tag: ""}
+			out.Withdrawal = &common.WithdrawalData{Address: "bc1-txg-withdrawal", Tag: ""}
 		}
 		tx.Outputs = append(tx.Outputs, out)
 	}
@@ -623,8 +718,11 @@ func txgBuild(e *txgEnv, s *txgShape, salt string) *common.VersionedTransaction 
 	}
 
 	// signatures (over the final payload)
-	hash := ver.PayloadHash()
-	sign := func(k *crypto.Key) *crypto.Signature { s := k.Sign(hash); return &s }
+	var hash crypto.Hash
+	if p := verifmc.Catch(func() { hash = ver.PayloadHash() }); p != nil {
+		return ver // not encodable: txgRun records the encoder's refusal
+	}
+	sign := func(k *crypto.Key) *crypto.Signature { return txgSignerOf(k).sign(hash) }
 	correct := func(idx uint16) []map[uint16]*crypto.Signature {
 		var maps []map[uint16]*crypto.Signature
 		for i, in := range ver.Inputs {
@@ -884,5 +982,191 @@ func txgSeqs(k, minLen, maxLen int) [][]int {
 		out = append(out, append([]int{}, s...))
 		return true
 	})
+	return out
+}
+
+// ---------------------------------------------------------------- the C01 product (shared with C05)
+
+func txgC01Amounts() []txgAmount {
+	return []txgAmount{
+		txgAmt("1u", big.NewInt(1)), txgAmt("5", txgXIN(5)), txgAmt("7", txgXIN(7)), txgAmt("12", txgXIN(12)),
+		txgAmt("2^64u", txgPow2(64)), txgAmt("2^256-1u", new(big.Int).Sub(txgPow2(256), big.NewInt(1))),
+	}
+}
+
+func txgPickAmounts(all []txgAmount, names ...string) []txgAmount {
+	var r []txgAmount
+	for _, n := range names {
+		for _, a := range all {
+			if a.Name == n {
+				r = append(r, a)
+			}
+		}
+	}
+	if len(r) != len(names) {
+		panic(fmt.Sprint("unknown amount name in ", names))
+	}
+	return r
+}
+
+// txgBlock is one full product: asset x input lists x (a) x output lists x ledgers x times.
+type txgBlock struct {
+	Name     string
+	InAlpha  []txgIn
+	OutAlpha []txgOut
+	InSeqs   [][]int
+	OutSeqs  [][]int
+	Envs     []*txgEnv
+	NTimes   int
+}
+
+type txgItem struct {
+	B     *txgBlock
+	Env   *txgEnv
+	Time  int
+	Asset int
+	In    []int
+	A     int
+}
+
+type txgKindMenu struct {
+	T    uint8
+	Amts []txgAmount
+}
+
+func txgOutAlphabet(menus []txgKindMenu) []txgOut {
+	var out []txgOut
+	for _, m := range menus {
+		for _, a := range m.Amts {
+			out = append(out, txgOut{Type: m.T, Amt: a})
+		}
+	}
+	return append(out, txgOut{Type: common.OutputTypeScript, Amt: txgAmt("0", big.NewInt(0))})
+}
+
+// txgC01Blocks is the product of DESIGN.md C01. quick: one block, lists of
+// length 1..2. thorough: the same with the larger output alphabet and more
+// ledgers/times, plus input lists of length 3 and output lists of length 3
+// (each against the quick alphabet of the other side).
+func txgC01Blocks(thorough bool, env func(string) *txgEnv) []*txgBlock {
+	am := txgC01Amounts()
+	inAlpha := []txgIn{{txgInRef, "xin5"}, {txgInRef, "xin7"}, {txgInRef, "btc5"}, {txgInRef, "missing"}, {Kind: txgInDup}, {Kind: txgInDeposit}, {Kind: txgInMint}, {Kind: txgInGenesis}}
+	small := txgOutAlphabet([]txgKindMenu{
+		{common.OutputTypeScript, am},
+		{common.OutputTypeWithdrawalSubmit, txgPickAmounts(am, "5", "12", "2^64u")},
+		{common.OutputTypeNodePledge, txgPickAmounts(am, "5", "12")},
+		{0x77, txgPickAmounts(am, "5")},
+	})
+	envs := func(names ...string) []*txgEnv {
+		var r []*txgEnv
+		for _, n := range names {
+			r = append(r, env(n))
+		}
+		return r
+	}
+	if !thorough {
+		return []*txgBlock{{Name: "lists<=2", InAlpha: inAlpha, OutAlpha: small, InSeqs: txgSeqs(len(inAlpha), 1, 2), OutSeqs: txgSeqs(len(small), 1, 2),
+			Envs: envs("genesis", "deposits", "transfer", "spent"), NTimes: 2}}
+	}
+	large := txgOutAlphabet([]txgKindMenu{
+		{common.OutputTypeScript, am}, {common.OutputTypeWithdrawalSubmit, am}, {common.OutputTypeNodePledge, am},
+		{common.OutputTypeNodeRemove, txgPickAmounts(am, "5", "12")}, {common.OutputTypeWithdrawalClaim, txgPickAmounts(am, "1u", "5")},
+		{common.OutputTypeCustodianUpdateNodes, txgPickAmounts(am, "5", "12")}, {common.OutputTypeNodeCancel, txgPickAmounts(am, "5")},
+		{0x77, txgPickAmounts(am, "5", "2^256-1u")},
+	})
+	all := envs("genesis", "deposits", "transfer", "spent", "submit", "alltypes")
+	return []*txgBlock{
+		{Name: "lists<=2/large-alphabet", InAlpha: inAlpha, OutAlpha: large, InSeqs: txgSeqs(len(inAlpha), 1, 2), OutSeqs: txgSeqs(len(large), 1, 2), Envs: all, NTimes: 3},
+		{Name: "inputs=3", InAlpha: inAlpha, OutAlpha: small, InSeqs: txgSeqs(len(inAlpha), 3, 3), OutSeqs: txgSeqs(len(small), 1, 2), Envs: all, NTimes: 2},
+		{Name: "outputs=3", InAlpha: inAlpha, OutAlpha: small, InSeqs: txgSeqs(len(inAlpha), 1, 2), OutSeqs: txgSeqs(len(small), 3, 3), Envs: all, NTimes: 2},
+	}
+}
+
+// txgItems expands blocks into work items (ledger, time, asset, input list, a);
+// a runs over the amount menu only when the input list has a deposit / mint.
+func txgItems(blocks []*txgBlock, amounts []txgAmount) []txgItem {
+	var items []txgItem
+	for _, b := range blocks {
+		for _, e := range b.Envs {
+			for ti := 0; ti < b.NTimes; ti++ {
+				for as := range txgAssets {
+					for _, seq := range b.InSeqs {
+						na := 1
+						for _, k := range seq {
+							if kd := b.InAlpha[k].Kind; kd == txgInDeposit || kd == txgInMint || kd == txgInDepMint {
+								na = len(amounts)
+							}
+						}
+						for a := 0; a < na; a++ {
+							items = append(items, txgItem{b, e, ti, as, seq, a})
+						}
+					}
+				}
+			}
+		}
+	}
+	return items
+}
+
+// txgRunItem builds and validates every output list of one item.
+func txgRunItem(it txgItem, amounts []txgAmount, fn func(e *txgEnv, ti int, shape *txgShape, key string, res *txgResult)) {
+	e := it.Env
+	shape := txgShape{Asset: it.Asset, InAmt: amounts[it.A], Sig: txgSigCorrect, ExtraLen: -1, Refs: txgRefAuto}
+	for _, x := range it.In {
+		shape.Ins = append(shape.Ins, it.B.InAlpha[x])
+	}
+	kg := txgNewKeyGen(fmt.Sprintf("c01/%s/%s/%d/%d/%v/%d", it.B.Name, e.Name, it.Time, it.Asset, it.In, it.A))
+	for _, os := range it.B.OutSeqs {
+		shape.Outs = shape.Outs[:0]
+		for _, x := range os {
+			shape.Outs = append(shape.Outs, it.B.OutAlpha[x])
+		}
+		key := fmt.Sprintf("%s@%s %s", e.Name, e.TimeNames[it.Time], shape.Key())
+		ver := txgBuild(e, &shape, key, kg)
+		fn(e, it.Time, &shape, key, txgRun(e, ver, e.Times[it.Time]))
+	}
+}
+
+// txgEnvCache builds every ledger at most once per test.
+type txgEnvCache struct {
+	mu   sync.Mutex
+	envs map[string]*txgEnv
+}
+
+func (ec *txgEnvCache) get(name string) *txgEnv {
+	ec.mu.Lock()
+	defer ec.mu.Unlock()
+	if ec.envs == nil {
+		ec.envs = map[string]*txgEnv{}
+	}
+	if e := ec.envs[name]; e != nil {
+		return e
+	}
+	e := txgNewEnv(name)
+	ec.envs[name] = e
+	return e
+}
+
+func (ec *txgEnvCache) close() {
+	for _, e := range ec.envs {
+		e.W.L.Close()
+	}
+}
+
+func (ec *txgEnvCache) describe() []map[string]any {
+	var names []string
+	for n := range ec.envs {
+		names = append(names, n)
+	}
+	sort.Strings(names)
+	var out []map[string]any
+	for _, n := range names {
+		e := ec.envs[n]
+		types := map[string]int{}
+		for t, k := range e.Types {
+			types[fmt.Sprintf("%02x", t)] = k
+		}
+		out = append(out, map[string]any{"ledger": n, "steps": e.Recipe, "synthetic_steps": e.Synthetic, "unspent_outputs_by_type": types})
+	}
 	return out
 }
